@@ -356,6 +356,24 @@ class _Cmp(ast.NodeTransformer):
 
     def visit_Compare(self, n):
         self.generic_visit(n)
+        if len(n.ops) >= 2 and all(_no_call(c) for c in n.comparators[:-1]) and not any(isinstance(o, (ast.In, ast.NotIn, ast.Is, ast.IsNot)) for o in n.ops):
+            # a < b <= c: the middle operands are read once, and they are plain reads -> a < b and b <= c
+            STATS["chain"] = STATS.get("chain", 0) + 1
+            seq = [n.left] + list(n.comparators)
+            parts = [self.visit_Compare(ast.copy_location(ast.Compare(left=copy.deepcopy(seq[i]), ops=[n.ops[i]], comparators=[copy.deepcopy(seq[i + 1])]), n))
+                     for i in range(len(n.ops))]
+            return ast.copy_location(ast.BoolOp(op=ast.And(), values=parts), n)
+        if len(n.ops) == 1 and isinstance(n.ops[0], (ast.In, ast.NotIn)) and isinstance(n.comparators[0], (ast.Tuple, ast.List, ast.Set)) \
+                and 1 <= len(n.comparators[0].elts) <= 4 and _no_call(n.left) \
+                and all(isinstance(e, ast.Constant) and isinstance(e.value, (int, str)) and not isinstance(e.value, bool) or (isinstance(e, ast.Constant) and e.value is None)
+                        for e in n.comparators[0].elts):
+            # x in (1, 2)  ->  x == 1 or x == 2     (int / str / None literals: `in` compares by identity-or-equality, the same here)
+            STATS["member"] = STATS.get("member", 0) + 1
+            is_in = isinstance(n.ops[0], ast.In)
+            parts = [ast.copy_location(ast.Compare(left=copy.deepcopy(n.left), ops=[ast.Eq() if is_in else ast.NotEq()], comparators=[e]), n) for e in n.comparators[0].elts]
+            if len(parts) == 1:
+                return parts[0]
+            return ast.copy_location(ast.BoolOp(op=ast.Or() if is_in else ast.And(), values=parts), n)
         if len(n.ops) == 1 and type(n.ops[0]) in _SWAP and _is_lit(n.left) and not _is_lit(n.comparators[0]) and _no_call(n.comparators[0]):
             STATS["compare"] = STATS.get("compare", 0) + 1
             return ast.copy_location(ast.Compare(left=n.comparators[0], ops=[_SWAP[type(n.ops[0])]()], comparators=[n.left]), n)
@@ -369,6 +387,30 @@ class _Cmp(ast.NodeTransformer):
             return ast.copy_location(ast.Compare(left=c.left, ops=[_INV[type(c.ops[0])]()], comparators=c.comparators), n)
         if isinstance(n.op, ast.Not) and isinstance(n.operand, ast.UnaryOp) and isinstance(n.operand.op, ast.Not) and False:
             return n
+        return n
+
+    def visit_Call(self, n):
+        self.generic_visit(n)
+        f = access_path(n.func) or ""
+        # consumers that read their whole argument: a generator argument is the list of the same elements
+        if f in ("sum", "min", "max", "sorted", "list", "tuple", "set", "frozenset", "math.fsum", "np.sum", "numpy.sum") and n.args \
+                and isinstance(n.args[0], ast.GeneratorExp):
+            STATS["genexp"] = STATS.get("genexp", 0) + 1
+            g = n.args[0]
+            n.args[0] = ast.copy_location(ast.ListComp(elt=g.elt, generators=g.generators), g)
+            return n
+        # operator.attrgetter("a.b") / itemgetter(k) as the lambda they stand for
+        if f.split(".")[-1] == "attrgetter" and len(n.args) == 1 and not n.keywords and isinstance(n.args[0], ast.Constant) \
+                and isinstance(n.args[0].value, str) and all(p_.isidentifier() for p_ in n.args[0].value.split(".")):
+            body = ast.Name(id="__o", ctx=ast.Load())
+            for p_ in n.args[0].value.split("."):
+                body = ast.Attribute(value=body, attr=p_, ctx=ast.Load())
+            STATS["getter"] = STATS.get("getter", 0) + 1
+            return _loc(ast.Lambda(args=ast.arguments(posonlyargs=[], args=[ast.arg(arg="__o")], kwonlyargs=[], kw_defaults=[], defaults=[]), body=body), n)
+        if f.split(".")[-1] == "itemgetter" and len(n.args) == 1 and not n.keywords and isinstance(n.args[0], ast.Constant):
+            body = ast.Subscript(value=ast.Name(id="__o", ctx=ast.Load()), slice=n.args[0], ctx=ast.Load())
+            STATS["getter"] = STATS.get("getter", 0) + 1
+            return _loc(ast.Lambda(args=ast.arguments(posonlyargs=[], args=[ast.arg(arg="__o")], kwonlyargs=[], kw_defaults=[], defaults=[]), body=body), n)
         return n
 
     def visit_Lambda(self, n):
@@ -494,9 +536,8 @@ def _while_to_for(stmts, k, fn_tail_reads):
     for n in ast.walk(N):
         if isinstance(n, ast.Call) and not (isinstance(n.func, ast.Name) and n.func.id == "len" and len(n.args) == 1):
             return None
-    last = w.body[-1]
-    if not (isinstance(last, ast.AugAssign) and isinstance(last.target, ast.Name) and last.target.id == i and isinstance(last.op, ast.Add)
-            and isinstance(last.value, ast.Constant) and last.value.value == 1):
+    last = _as_increment(w.body[-1])
+    if last is None or last.target.id != i:
         return None
     inner = ast.Module(body=w.body[:-1], type_ignores=[])
     for n in ast.walk(inner):
@@ -551,6 +592,19 @@ def _while_to_for(stmts, k, fn_tail_reads):
     return _loc(loop, w), init
 
 
+def _as_increment(st):
+    """`c += 1` (also written `c = c + 1` / `c = 1 + c`) as an AugAssign node, else None"""
+    if isinstance(st, ast.AugAssign) and isinstance(st.target, ast.Name) and isinstance(st.op, ast.Add) \
+            and isinstance(st.value, ast.Constant) and st.value.value == 1 and not isinstance(st.value.value, bool):
+        return st
+    if isinstance(st, ast.Assign) and len(st.targets) == 1 and isinstance(st.targets[0], ast.Name) and isinstance(st.value, ast.BinOp) \
+            and isinstance(st.value.op, ast.Add):
+        for a, b in ((st.value.left, st.value.right), (st.value.right, st.value.left)):
+            if isinstance(a, ast.Name) and a.id == st.targets[0].id and isinstance(b, ast.Constant) and b.value == 1 and not isinstance(b.value, bool):
+                return ast.copy_location(ast.AugAssign(target=ast.Name(id=a.id, ctx=ast.Store()), op=ast.Add(), value=b), st)
+    return None
+
+
 def _counter_to_enum(stmts, k, fn_tail_reads):
     """stmts[k] is `for v in X: ...; c += 1` with `c = K` (literal) as the nearest preceding statement on c and c dead
     afterwards: the replacement `for c, v in enumerate(X, K)` and the index of the initialisation, or None"""
@@ -559,9 +613,8 @@ def _counter_to_enum(stmts, k, fn_tail_reads):
         return None
     if isinstance(lp.iter, ast.Call) and isinstance(lp.iter.func, ast.Name) and lp.iter.func.id in ("enumerate", "range"):
         return None
-    last = lp.body[-1]
-    if not (isinstance(last, ast.AugAssign) and isinstance(last.target, ast.Name) and isinstance(last.op, ast.Add)
-            and isinstance(last.value, ast.Constant) and last.value.value == 1 and not isinstance(last.value.value, bool)):
+    last = _as_increment(lp.body[-1])
+    if last is None:
         return None
     c = last.target.id
     if any(isinstance(n, ast.Name) and n.id == c for n in ast.walk(lp.target)) or any(isinstance(n, ast.Name) and n.id == c for n in ast.walk(lp.iter)):
@@ -597,6 +650,75 @@ def _counter_to_enum(stmts, k, fn_tail_reads):
     loop = ast.For(target=ast.Tuple(elts=[ast.Name(id=c, ctx=ast.Store()), lp.target], ctx=ast.Store()), iter=call, body=lp.body[:-1], orelse=[])
     STATS["counter"] = STATS.get("counter", 0) + 1
     return _loc(loop, lp), init
+
+
+def _hoist_walrus(st):
+    """`if (n := E) > 0: ...` / `y = g((n := E))` -> `n = E` followed by the statement reading n, when the assignment
+    expression is evaluated unconditionally and nothing evaluated before it can observe or disturb it"""
+    if isinstance(st, ast.If):
+        root, field = st.test, "test"
+    elif isinstance(st, (ast.Assign, ast.AugAssign, ast.Return, ast.Expr)) and st.value is not None:
+        root, field = st.value, "value"
+    else:
+        return None
+    ws = [n for n in ast.walk(root) if isinstance(n, ast.NamedExpr)]
+    if len(ws) != 1 or not isinstance(ws[0].target, ast.Name):
+        return None
+    w = ws[0]
+    x = w.target.id
+    if any(isinstance(n, ast.Name) and n.id == x for n in ast.walk(w.value)):
+        return None
+
+    def clean(e):
+        # evaluated before the walrus: must not call anything and must not read x
+        return not any(isinstance(n, (ast.Call, ast.Await, ast.Yield, ast.YieldFrom)) or (isinstance(n, ast.Name) and n.id == x) for n in ast.walk(e))
+
+    def reach(e):
+        """True when w is evaluated unconditionally inside e and everything evaluated before it is clean"""
+        if e is w:
+            return True
+        if isinstance(e, ast.Compare):
+            seq = [e.left] + list(e.comparators)
+            for i, o in enumerate(seq):
+                if any(n is w for n in ast.walk(o)):
+                    return i <= 1 and all(clean(p_) for p_ in seq[:i]) and reach(o)     # operands beyond the second are conditional
+            return False
+        if isinstance(e, ast.BoolOp):
+            return any(n is w for n in ast.walk(e.values[0])) and reach(e.values[0])
+        if isinstance(e, ast.UnaryOp):
+            return reach(e.operand)
+        if isinstance(e, ast.BinOp):
+            if any(n is w for n in ast.walk(e.left)):
+                return reach(e.left)
+            return clean(e.left) and reach(e.right)
+        if isinstance(e, ast.Call):
+            seq = [e.func] + list(e.args) + [k.value for k in e.keywords]
+            for i, o in enumerate(seq):
+                if any(n is w for n in ast.walk(o)):
+                    return all(clean(p_) for p_ in seq[:i]) and not isinstance(o, ast.Starred) and reach(o)
+            return False
+        if isinstance(e, (ast.Attribute, ast.Subscript)):
+            if any(n is w for n in ast.walk(e.value)):
+                return reach(e.value)
+            return isinstance(e, ast.Subscript) and clean(e.value) and reach(e.slice)
+        if isinstance(e, (ast.Tuple, ast.List)):
+            for i, o in enumerate(e.elts):
+                if any(n is w for n in ast.walk(o)):
+                    return all(clean(p_) for p_ in e.elts[:i]) and reach(o)
+        return False
+    if isinstance(st, ast.AugAssign) and not clean(st.target):
+        return None
+    if not reach(root):
+        return None
+
+    class S(ast.NodeTransformer):
+        def visit_NamedExpr(self, n):
+            if n is w:
+                return ast.copy_location(ast.Name(id=x, ctx=ast.Load()), n)
+            return self.generic_visit(n)
+    setattr(st, field, S().visit(root))
+    STATS["walrus"] = STATS.get("walrus", 0) + 1
+    return [_loc(ast.Assign(targets=[ast.Name(id=x, ctx=ast.Store())], value=w.value), st), st]
 
 
 def _hoist_verdict(st, fx):
@@ -663,6 +785,21 @@ def _stmt(st, fx, occ):
     if isinstance(st, ast.ClassDef):
         st.body = _class_body(st.body)
         return [st]
+    if isinstance(st, ast.AnnAssign):
+        # annotations of locals / attributes carry no behaviour: `x: T = E` is `x = E`, a bare `x: T` is nothing
+        STATS["annot"] = STATS.get("annot", 0) + 1
+        if st.value is None:
+            return [_loc(ast.Pass(), st)]
+        return _block([_loc(ast.Assign(targets=[st.target], value=st.value), st)], fx, occ)
+    if isinstance(st, ast.Assign) and len(st.targets) == 1 and isinstance(st.targets[0], ast.Name) and isinstance(st.value, ast.BinOp) \
+            and isinstance(st.value.op, (ast.Add, ast.Sub)) and isinstance(st.value.left, ast.Name) and st.value.left.id == st.targets[0].id \
+            and isinstance(st.value.right, ast.Constant) and isinstance(st.value.right.value, (int, float)) and not isinstance(st.value.right.value, bool):
+        # x = x + c with a numeric literal (counters, accumulators): read as x += c; the rules take both as a rebinding of x
+        STATS["aug"] = STATS.get("aug", 0) + 1
+        st = _loc(ast.AugAssign(target=ast.Name(id=st.targets[0].id, ctx=ast.Store()), op=st.value.op, value=st.value.right), st)
+    r = _hoist_walrus(st)
+    if r is not None:
+        return _block(r, fx, occ)
     _canon_exprs(st)
     r = _swap_not(st)
     if r is not None:
